@@ -52,6 +52,10 @@ def main(tier, only=None):
     from mirsmt import c13m
     if not only or 'start_rowid' in only:
         c13m.run(rep, thorough)
+    # the row-set iterator is a coroutine no solver back end reaches: its contract is probed on the real disk engine
+    if not only:
+        from . import conform_scan
+        conform_scan.run(rep, thorough)
     return rep.finish()
 
 
